@@ -68,6 +68,8 @@ var Atoms = []string{
 	"\"", "<", ">", "`", "{", "}", "|", "^", "'", "!", "$", "*", "(", ")", ",", "+", "-", "_", "~",
 	// invalid UTF-8
 	"\xff", "\xe2\x82", "\x80", "\xc3", "\xf0\x9f\x92", "\xc0\xaf", "\xed\xa0\x80",
+	// HTML-entity-ish text that harvested links carry
+	"&amp;", "?a=1&amp;b=2", "&#38;", "&lt;",
 	// misc words
 	"a b", "x", "X", "e", "f", "path", "q=1", "a=b&c=d", "frag", "..a", "a..",
 }
